@@ -89,22 +89,50 @@ class LogicalExpressionTransformer(converter.Base):
     ops_and_comps = list(zip(node.ops, node.comparators))
     left = node.left
 
+    if len(ops_and_comps) == 1:
+      op, right = ops_and_comps[0]
+      return self._process_binop(op, left, right)
+
     # Repeated comparisons are converted to conjunctions:
     #   a < b < c   ->   a < b and b < c
-    op_tree = None
-    while ops_and_comps:
-      op, right = ops_and_comps.pop(0)
-      binary_comparison = self._process_binop(op, left, right)
-      if op_tree is not None:
-        op_tree = self._as_binary_function('ag__.and_',
-                                           self._as_lambda(op_tree),
-                                           self._as_lambda(binary_comparison))
-      else:
-        op_tree = binary_comparison
-      left = right
+    # in which every operand is still evaluated at most once, left to right,
+    # and the operands after a failed comparison are not evaluated at all:
+    #   (lambda l, r: ag__.and_(lambda: l < r, lambda: r < c))(a, b)
+    return self._as_chain(left, ops_and_comps, left_is_bound=False)
 
-    assert op_tree is not None
-    return op_tree
+  def _as_chain(self, left, ops_and_comps, left_is_bound):
+    """Builds the conjunction for `left op1 c1 op2 c2 ...`.
+
+    If left_is_bound, `left` is a reference to an already evaluated operand.
+    """
+    op, right = ops_and_comps[0]
+    rest = ops_and_comps[1:]
+    if not rest:
+      return self._process_binop(op, left, right)
+
+    right_name = self.ctx.namer.new_symbol('cmp_r', ())
+    right_ref = templates.replace_as_expression('n', n=right_name)
+    remaining = self._as_chain(right_ref, rest, left_is_bound=True)
+
+    if left_is_bound:
+      return templates.replace_as_expression(
+          '(lambda right_name: ag__.and_(lambda: first, lambda: remaining))(right)',
+          right_name=right_name,
+          first=self._process_binop(op, left, right_ref),
+          remaining=remaining,
+          right=right)
+
+    left_name = self.ctx.namer.new_symbol('cmp_l', ())
+    left_ref = templates.replace_as_expression('n', n=left_name)
+    return templates.replace_as_expression(
+        '(lambda left_name, right_name: '
+        'ag__.and_(lambda: first, lambda: remaining))(left, right)',
+        left_name=left_name,
+        right_name=right_name,
+        first=self._process_binop(op, left_ref, right_ref),
+        remaining=remaining,
+        left=left,
+        right=right)
 
   def visit_UnaryOp(self, node):
     node = self.generic_visit(node)
